@@ -173,6 +173,25 @@ fn sampled(rng: &mut Rng) -> Scenario {
         }
     });
     sc.dense = true;
+    if rng.bool(0.04) {
+        // an interval of a few (to a few thousand) ulps at a large abscissa: most methods fail
+        // honestly there, RK4 with one step succeeds; the requested times are x0, xend and between
+        let big = rng.sign() * rng.logu(1e3, 1e9);
+        let d = sc.dir();
+        sc.x0 = big;
+        sc.xend = big + d * big.abs() * rng.logu(3e-16, 1e-12);
+        sc.max_step = None;
+        if m == Meth::RK4 {
+            sc.first_step = Some(sc.xend - sc.x0);
+        }
+        let mut te = vec![sc.x0];
+        if rng.bool(0.5) {
+            te.push(sc.x0 + 0.5 * (sc.xend - sc.x0));
+        }
+        te.push(sc.xend);
+        sc.t_eval = Some(te);
+        return sc;
+    }
     sc.t_eval = Some(place_t_eval(rng, &p.grid, sc.x0, sc.xend));
     let nsteps = p.grid.len() - 1;
     // early stop, one kind per run (or none)
